@@ -480,6 +480,8 @@ func scriptFor(fam string, idx int) func(*scen) {
 		return scriptBurstBehindCallback
 	case fam == "c06" && idx%30 == 13:
 		return scriptManyHandlers
+	case fam == "c07" && idx%30 == 17:
+		return scriptDeadlineDuplicate
 	}
 	return nil
 }
@@ -568,6 +570,34 @@ func scriptBurstBehindCallback(s *scen) {
 	r.drain(s.pickParked)
 }
 
+// scriptDeadlineDuplicate (judged by monitors only: request contexts with deadlines are outside the model): every
+// request context has a deadline (ServerOptions.NewContext); a call is still executing when its deadline passes;
+// a second request with the same id arriving then is a duplicate like any other - rejected, never run, and the
+// first call is not disturbed.
+func scriptDeadlineDuplicate(s *scen) {
+	r := s.r
+	r.log.item("env\tbasectx\tdeadlines")
+	t1, t2, t3 := s.newTok(), s.newTok(), s.newTok()
+	r.feedMsgs(false, []member{mkCall("7", "g", t1)}, false)
+	r.drain(s.pickParked)
+	r.tick() // the deadline of the first call's context passes while its handler runs
+	r.drain(s.pickParked)
+	r.feedMsgs(false, []member{mkCall("7", "g", t2)}, false)
+	r.drain(s.pickParked)
+	r.feedMsgs(true, []member{mkCall("8", "g", t3), mkCall("7", "g", s.newTok())}, false)
+	r.drain(s.pickParked)
+	for i := 0; i < 4; i++ {
+		r.mu.Lock()
+		started := append([]string(nil), r.started...)
+		r.mu.Unlock()
+		if len(started) == 0 {
+			break
+		}
+		r.gate(started[0], gateMsg{res: "true"})
+		r.drain(s.pickParked)
+	}
+}
+
 // scriptManyHandlers: a concurrency limit above the number of CPUs, saturated by one batch of calls: exactly K
 // handlers execute, the rest wait, and each return lets one more in.
 func scriptManyHandlers(s *scen) {
@@ -620,6 +650,14 @@ func runServerScenario(t *testing.T, fam string, seed uint64, idx int, out *bufi
 	if policy == "race" && idx%12 == 5 {
 		cfg.basectx = true // monitors only: the model has no base context
 	}
+	scripted := scriptFor(fam, idx)
+	if fam == "c07" && scripted != nil {
+		// scheduled like any other scenario, but labelled as monitors-only: per-request deadlines are outside the model
+		cfg.deadlines = true
+		if policy == "race" {
+			policy = "random"
+		}
+	}
 	synctest.Test(t, func(t *testing.T) {
 		r := newSrvRun(cfg, out)
 		s := &scen{r: r, g: g, f: f, policy: policy}
@@ -633,7 +671,11 @@ func runServerScenario(t *testing.T, fam string, seed uint64, idx int, out *bufi
 			jrpc2.VerifSetHook(r.sc.point)
 		}
 		defer jrpc2.VerifSetHook(nil)
-		r.log.item("scenario\t%s\t%d\t%d\t%s", fam, seed, idx, policy)
+		label := policy
+		if cfg.deadlines {
+			label = "race" // the acceptor skips it (monitors only)
+		}
+		r.log.item("scenario\t%s\t%d\t%d\t%s", fam, seed, idx, label)
 		r.start()
 		s.sched()
 		if script := scriptFor(fam, idx); script != nil && policy != "race" {
